@@ -15,6 +15,8 @@ pub(crate) mod c08;
 pub(crate) mod topo;
 #[path = "/verif/harness/d/c01.rs"]
 pub(crate) mod c01;
+#[path = "/verif/harness/d/c10.rs"]
+pub(crate) mod c10;
 
 use vcore::{BatchPlan, Check};
 
@@ -61,6 +63,7 @@ fn plan(property: &str) -> BatchPlan {
 pub(crate) fn verif_main(args: &[String]) -> i32 {
     let c08 = c08::HoldTimers;
     let c01 = c01::Convergence;
-    let checks: Vec<&dyn Check> = vec![&c08, &c01];
+    let c10 = c10::GrHelper;
+    let checks: Vec<&dyn Check> = vec![&c08, &c01, &c10];
     vcore::main_with(&checks, &plan, args)
 }
